@@ -82,6 +82,10 @@ class Tree:
                 concept = next(
                     (tgt for role, tgt in branches if role == '/'), None
                 )
+                if isinstance(concept, str) and '~' in concept:
+                    # alignments are not part of the concept
+                    end = concept.rindex('"') + 1 if concept[0] == '"' else 0
+                    concept = concept[:end] + concept[end:].partition('~')[0]
                 pre = _default_variable_prefix(concept)
                 i = 0
                 newvar = None
